@@ -66,14 +66,15 @@ structure Accepted (cfg : Cfg) (d : Decoder) (crc : Checksum) (rest : Bytes) (es
     (crc ((rest.drop 16).take (decodeBlockHeader rest).csize)).toNat = (decodeBlockHeader rest).crc
   decoded : ∃ u, d.dec ((rest.drop 16).take (decodeBlockHeader rest).csize) = some u ∧
     (cfg.validatesULen = true → u.length % 2 ^ 32 = (decodeBlockHeader rest).usize) ∧
-    parseEntries (decodeBlockHeader rest).count u = .ok es
+    parseEntries (decodeBlockHeader rest).count u = .ok es ∧
+    (cfg.parseConsumesAll = true → sizeSum es = u.length)
 
 theorem parseBlock_ok (cfg : Cfg) (d : Decoder) (crc : Checksum) (h : BlockHeader) (c : Bytes) (es : List Entry)
     (hp : parseBlock cfg d crc h c = .ok es) :
     (cfg.validatesCrc = true → (crc c).toNat = h.crc) ∧
     (cfg.boundsDecodedLen = true → d.declLen c ≤ 32 * c.length + 64) ∧
     ∃ u, d.dec c = some u ∧ (cfg.validatesULen = true → u.length % 2 ^ 32 = h.usize) ∧
-      parseEntries h.count u = .ok es := by
+      parseEntries h.count u = .ok es ∧ (cfg.parseConsumesAll = true → sizeSum es = u.length) := by
   unfold parseBlock at hp
   split at hp
   · cases hp
@@ -87,10 +88,19 @@ theorem parseBlock_ok (cfg : Cfg) (d : Decoder) (crc : Checksum) (h : BlockHeade
         split at hp
         · cases hp
         · rename_i h3
-          refine ⟨?_, ?_, u, hu, ?_, hp⟩
-          · intro hv; simp [hv] at h1; exact h1
-          · intro hv; simp [hv] at h2; exact h2
-          · intro hv; simp [hv] at h3; exact h3
+          unfold finishParse at hp
+          split at hp
+          · cases hp
+          · rename_i es' hpe
+            split at hp
+            · cases hp
+            · rename_i h4
+              cases hp
+              refine ⟨?_, ?_, u, hu, ?_, hpe, ?_⟩
+              · intro hv; simp [hv] at h1; exact h1
+              · intro hv; simp [hv] at h2; exact h2
+              · intro hv; simp [hv] at h3; exact h3
+              · intro hv; simp [hv] at h4; exact h4
 
 /-- every block `readNextBlock` returns entries for had a matching checksum, decoded, had the
     declared length, and its entries are exactly the parse of the decoded bytes -/
@@ -213,7 +223,7 @@ theorem parseAlloc_le (cfg : Cfg) (d : Decoder) (crc : Checksum) (h : BlockHeade
 theorem parseAlloc_ok_le (cfg : Cfg) (d : Decoder) (crc : Checksum) (h : BlockHeader) (c : Bytes) (es : List Entry)
     (hg : cfg.boundsDecodedLen = true) (hs : DecoderSane d) (hp : parseBlock cfg d crc h c = .ok es) :
     parseAlloc cfg d crc h c ≤ 320 * c.length + 640 := by
-  obtain ⟨_, hD, u, hu, _, hpe⟩ := parseBlock_ok cfg d crc h c es hp
+  obtain ⟨_, hD, u, hu, _, hpe, _⟩ := parseBlock_ok cfg d crc h c es hp
   have hD := hD hg
   have hul := hs c u hu
   have hcnt := parseEntries_ok_length _ _ _ hpe
